@@ -261,6 +261,29 @@ pub fn timeline(b: u64, servers: usize, hours: u64, churn: u64, seed: u64, out: 
             "panicked": net.sim.nodes.iter().any(|n| n.panicked)}));
         lines += 1;
     }
+    if let Ok(w) = std::env::var("DEBUG_WIRE") {
+        let v: Vec<std::net::SocketAddrV4> = w.split(',').filter_map(|x| x.parse().ok()).collect();
+        if v.len() == 1 {
+            let mut cnt: std::collections::BTreeMap<String, (u64, u64)> = Default::default();
+            for r in &net.sim.log {
+                if r.from == v[0] {
+                    cnt.entry(r.to.to_string()).or_default().0 += 1;
+                } else if r.to == v[0] {
+                    cnt.entry(r.from.to_string()).or_default().1 += 1;
+                }
+            }
+            eprintln!("WIRE counts (sent, received) of {}: {:?}", v[0], cnt);
+        }
+        if v.len() == 2 {
+            for r in &net.sim.log {
+                if (r.from == v[0] && r.to == v[1]) || (r.from == v[1] && r.to == v[0]) {
+                    let m = r.msg.as_ref();
+                    eprintln!("WIRE {} {} -> {} {} delivered={:?}", r.sent_ns.saturating_sub(start) / MS / 1000, r.from, r.to,
+                        m.map(|m| m.q.clone().unwrap_or(m.response_kind().to_string())).unwrap_or_default(), r.delivered_ns.iter().map(|x| x.saturating_sub(start) / MS / 1000).collect::<Vec<_>>());
+                }
+            }
+        }
+    }
     lines
 }
 
